@@ -122,7 +122,7 @@ CLAIMED.update({
    design="4 C01"),
  "C02": dict(
    technique="Coq model of EagerModel.get_value / completion / Model.satisfies on top of the substituter and simplifier models, tied by exact correspondence (returned constant or error) + independent evaluation of the formula under the assignment as property-level oracle; structural theorems in Coq, exactness relative to C01/C05",
-   text="PARTIAL. coq/props/C02.v: whatever get_value returns is a constant (or constant array); completion assigns exactly the documented defaults (false, 0, 0.0, zero bit-vector) to unassigned symbols and never overrides the model. That the returned constant is the value the formula denotes is decided by (a) the exact correspondence of the model with the implementation on ~2300 (quick) / ~34k (thorough) (formula, assignment, completion) cases incl. every BV operator on every operand value at widths 1-3 (1-5), and (b) the independent evaluator on every case; as a theorem it follows from C01_simplify_sound_partial and C05_subst_lemma_partial on their fragments only.",
+   text="coq/props/C02.v: structural - whatever get_value returns is a constant; completion assigns exactly the documented defaults and never overrides the model. Semantic (all named `_partial`: they hold on the fragment `gfrag` stated in the props file - Boolean connectives, ITE, Equals, Int/Real arithmetic and the bit-vector operators as they are added; quantifier-free, UF-free): for every model of constants and every well-formed interpretation that agrees with the model and gives the defaults elsewhere, get_value with completion returns exactly the constant the formula denotes, does return one, satisfies() is true iff that value is true, and without completion a returned value holds under EVERY well-formed extension of the model. Outside the fragment (strings, arrays, ToReal, Pow) exactness is decided by the exact correspondence of the model with the implementation (~2300 quick / ~34k thorough cases incl. every BV operator on every operand value at widths 1-3 (1-5)) and by the independent evaluator on every case.",
    note="Trusted: as C01 and C05, plus harness/refeval.py for the oracle. Interpretations evaluating an Int/Real division by zero are skipped. UF-free, quantifier-free formulas.",
    design="4 C02"),
 })
